@@ -201,7 +201,7 @@ def determinism_and_inputs(case, rec, fp, method):
     from glotaran.optimization.optimizer import Optimizer
 
     def build():
-        return S.build_scheme(case, maximum_number_function_evaluations=4, optimization_method=method)
+        return S.build_scheme(case, maximum_number_function_evaluations=4, optimization_method=method, add_svd=True)
 
     ctx = dict(case, method=method)
     scheme = build()
